@@ -2,6 +2,7 @@ package main
 
 import (
 	"encoding/json"
+	"errors"
 	"fmt"
 	"github.com/xuperchain/xupercore/kernel/engines/xuperos/xpb"
 	"hash/fnv"
@@ -11,6 +12,7 @@ import (
 	"sort"
 	"sync"
 	"sync/atomic"
+	"time"
 
 	xconf "github.com/xuperchain/xupercore/kernel/common/xconfig"
 	xctx "github.com/xuperchain/xupercore/kernel/common/xcontext"
@@ -195,8 +197,9 @@ type subCfg struct {
 	Typ       string `json:"type"`
 	BC        string `json:"chain_filter"`
 	From      string `json:"sender_filter"`
-	Style     string `json:"style"` // handler | handler-nilresp | channel
+	Style     string `json:"style"` // handler | handler-nilresp | handler-error | handler-slow | channel | channel-stuck
 	SelfUnreg bool   `json:"self_unregister,omitempty"`
+	Cap       int    `json:"channel_capacity,omitempty"` // channel-stuck: a small channel whose consumer does not keep up
 
 	typ pb.XuperMessage_MessageType
 }
@@ -208,6 +211,7 @@ func (c subCfg) matches(typ pb.XuperMessage_MessageType, bc, from string) bool {
 type delivery struct {
 	seq int64
 	msg *pb.XuperMessage
+	at  time.Time // monotonic; used only by guards that skip a judgement, never by a verdict
 }
 
 type recSub struct {
@@ -241,14 +245,16 @@ func (s *recSub) record(rc *recorder, msg *pb.XuperMessage) {
 		}
 	}
 	q := rc.tick()
+	at := time.Now()
 	s.mu.Lock()
-	s.deliv = append(s.deliv, delivery{q, msg})
+	s.deliv = append(s.deliv, delivery{q, msg, at})
 	s.mu.Unlock()
 }
 
-// drain moves what arrived on a channel subscriber's channel into its delivery list.
+// drain moves what arrived on a channel subscriber's channel into its delivery list. The channel
+// of a stuck consumer (channel-stuck) is left alone: its owner decides when it wakes up (takeStuck).
 func (s *recSub) drain(rc *recorder) {
-	if s.ch == nil {
+	if s.ch == nil || s.Style == "channel-stuck" {
 		return
 	}
 	for {
@@ -257,6 +263,22 @@ func (s *recSub) drain(rc *recorder) {
 			s.record(rc, m)
 		default:
 			return
+		}
+	}
+}
+
+// takeStuck is the slow consumer waking up: it empties its channel and returns what was waiting.
+func (s *recSub) takeStuck() []*pb.XuperMessage {
+	var out []*pb.XuperMessage
+	if s.ch == nil {
+		return nil
+	}
+	for {
+		select {
+		case m := <-s.ch:
+			out = append(out, m)
+		default:
+			return out
 		}
 	}
 }
@@ -285,8 +307,20 @@ func newRecSub(nc *nctx.NetCtx, rc *recorder, cfg subCfg, work func(), onDeliver
 	case "channel":
 		s.ch = make(chan *pb.XuperMessage, 4096)
 		s.sub = p2p.NewSubscriber(nc, cfg.typ, s.ch, opts...)
+	case "channel-stuck":
+		c := cfg.Cap
+		if c < 1 {
+			c = 1
+		}
+		s.Cap = c
+		s.ch = make(chan *pb.XuperMessage, c)
+		s.sub = p2p.NewSubscriber(nc, cfg.typ, s.ch, opts...)
 	default:
 		nilResp := cfg.Style == "handler-nilresp"
+		failing := cfg.Style == "handler-error"
+		if cfg.Style == "handler-slow" && work == nil {
+			work = func() { time.Sleep(2 * time.Millisecond) }
+		}
 		var h p2p.HandleFunc = func(ctx xctx.XContext, msg *pb.XuperMessage) (*pb.XuperMessage, error) {
 			s.record(rc, msg)
 			if work != nil {
@@ -297,6 +331,9 @@ func newRecSub(nc *nctx.NetCtx, rc *recorder, cfg subCfg, work func(), onDeliver
 			}
 			if nilResp {
 				return nil, nil
+			}
+			if failing {
+				return nil, errors.New("verif: this subscriber's handler failed")
 			}
 			return &pb.XuperMessage{Header: &pb.XuperMessage_MessageHeader{Version: p2p.MessageVersion3, Bcname: msg.GetHeader().GetBcname(),
 				Type: p2p.GetRespMessageType(msg.GetHeader().GetType())}, Data: &pb.XuperMessage_MessageData{}}, nil
@@ -375,6 +412,11 @@ func childMain() {
 			progress(-1, "collision-probes")
 			runCollisionProbes(res, *fSeed, nc)
 		}
+		if os.Getenv("C20_RESTART") == "" {
+			progress(-1, "misbehaving-neighbour-trials")
+			runNeighbourTrials(res, *fSeed, *fN, *fTier != "thorough", nc)
+			res.save(*fOut)
+		}
 		for u := *fFrom; u < *fTo; u++ {
 			if u == skip {
 				continue
@@ -393,6 +435,9 @@ func childMain() {
 				continue
 			}
 			cfg := stressConfig(*fSeed, *fN, u)
+			if res.numViolations() == 0 {
+				stuckPlan(&cfg, *fSeed, *fN, u, *fTier != "thorough")
+			}
 			b, _ := json.Marshal(cfg)
 			progress(u, string(b))
 			runStressRound(res, *fSeed, *fN, u, cfg, nc)
